@@ -16,15 +16,15 @@ CLAIMED = {
          "Accept/reject verdict and decoded content are compared with a second implementation written from the RFC for every length structure up to a body bound (exhaustive) and for random/mutated inputs (sampled).",
          "Trusts harness/ref.Parse as a faithful RFC 5389 framing parser (validated on the RFC 5769 test vectors).",
          "DESIGN.md section 4, C02"),
- "C03": ("model-based (stateful) property testing with rapid: random traces of building operations, invariant checked after every step against a list model, the reference parser and the canonical reference encoder",
+ "C03": ("model-based (stateful) property testing with rapid: random traces of building operations, invariant checked after every step against a list model, the reference parser and the canonical reference encoder; native coverage-guided fuzzing of the same generators and oracle (rapid.MakeFuzz) in the thorough tier",
          "Histories of building operations are generated and shrunk as one value; after every step wire == struct == model and decode/encode identities hold.",
          "Sampled histories (bounded length 1..40); typed-setter value bytes are taken from the wire here and judged by C06; type 0x8020 is not passed to Add (decode-side alias).",
          "DESIGN.md section 4, C03"),
- "C04": ("property-based differential testing of MessageIntegrity.Check/AddTo against an RFC 2104 HMAC-SHA1 written by definition; exhaustive single-bit tamper sweep per signed message (release and debug builds)",
+ "C04": ("property-based differential testing of MessageIntegrity.Check/AddTo against an RFC 2104 HMAC-SHA1 written by definition; exhaustive single-bit tamper sweep per signed message (release and debug builds); native coverage-guided fuzzing of the verdict iff (bytes x key, reference MAC written in by a knob) in the thorough tier",
          "The iff of RFC 5389 15.4 is checked on generated messages with near-miss MACs and arbitrary trailing attributes; every bit position of each signed message is flipped and judged by the reference verdict.",
          "Trusts harness/ref.HMACSHA1 (cross-checked against crypto/hmac); collision bounds of HMAC-SHA1 are inherited.",
          "DESIGN.md section 4, C04"),
- "C05": ("property-based differential testing of Fingerprint.Check/AddTo against a bitwise CRC-32; exhaustive single-bit flips and random <=32-bit bursts per fingerprinted message (release and debug builds)",
+ "C05": ("property-based differential testing of Fingerprint.Check/AddTo against a bitwise CRC-32; exhaustive single-bit flips and random <=32-bit bursts per fingerprinted message (release and debug builds); native coverage-guided fuzzing of the verdict iff in the thorough tier",
          "The iff of RFC 5389 15.5 is checked on generated messages; every bit of each fingerprinted message and random bursts (in CRC bit order) must be detected unless the corruption creates/removes FINGERPRINT attributes.",
          "Trusts harness/ref.CRC32 (bitwise, cross-checked against hash/crc32). Bursts are windows of <=32 consecutive bits in the CRC's own bit order (where the guarantee is mathematical).",
          "DESIGN.md section 4, C05"),
@@ -36,7 +36,7 @@ CLAIMED = {
          "Locality and purity are decided by a metamorphic relation (equal outcome on twins) plus before/after snapshots and no-panic with zero spare capacity; value lengths 0..40 are enumerated completely.",
          "Spare capacity may be used as scratch by the integrity check (D7); only visible bytes are compared.",
          "DESIGN.md section 4, C07"),
- "C08": ("stateful property testing with a fresh-twin differential: random histories of decode/build uses of one Message with poisoned spare capacity and caller inputs overwritten after every call",
+ "C08": ("stateful property testing with a fresh-twin differential: random histories of decode/build uses of one Message with poisoned spare capacity and caller inputs overwritten after every call; native coverage-guided fuzzing of three-use decode histories with the same oracle in the thorough tier",
          "Every use of a reused Message is compared with the same use on a fresh Message; copy semantics are checked by scribbling over all caller-side inputs.",
          "Message.Decode() in place is excluded (no copy by design); sampled histories of 2..8 uses.",
          "DESIGN.md section 4, C08"),
@@ -56,7 +56,7 @@ CLAIMED = {
          "Every handler invocation must carry its own id and exactly the delivered datagram; unmatched datagrams go only to the fallback handler; compared against the model after every delivered datagram.",
          "Two live transactions never share an id (D4); concurrency inside the client is covered by the C10/C15 stress, routing here is checked on harness-ordered deliveries.",
          "DESIGN.md section 4, C12"),
- "C13": ("exhaustive small-scope + model-based testing: all call sequences to a depth bound over 3 ids x 4 instants, every reachable abstract state x every call, and long rapid sequences, compared call by call with an abstract transaction table",
+ "C13": ("exhaustive small-scope + model-based testing: all call sequences to a depth bound over 3 ids x 4 instants, every reachable abstract state x every call, and long rapid sequences, compared call by call with an abstract transaction table; native coverage-guided fuzzing of byte-coded call sequences against the same model in the thorough tier",
          "Return values and event multisets of every call equal the reference model's; the bounded sequence space and the abstract state space are enumerated completely.",
          "Handlers do not re-enter the agent in these sequential histories (C14 does).",
          "DESIGN.md section 4, C13; appendix A"),
